@@ -381,7 +381,7 @@ Proof.
   intros c A G S. unfold in_scope_all in S. apply orb_true_iff in S. destruct S as [S|S].
   - apply judge_sound; assumption.
   - unfold agrees in A. apply andb_true_iff in A. destruct A as [_ A]. unfold C16_guard in G. unfold C16_ok.
-    destruct (unwrap c) as [| | |e uo thr init ops emitted| | |]; try discriminate S.
+    destruct (unwrap c) as [| | |e uo thr init ops emitted| | | |]; try discriminate S.
     apply (coll_judge_sound e uo thr init ops emitted); assumption.
 Qed.
 
